@@ -955,14 +955,32 @@ package p9p
 //@ pure repDir(d Dir) bool = len(d.Name) <= 65535 && len(d.UID) <= 65535 && len(d.GID) <= 65535 && len(d.MUID) <= 65535 && dirLen(d) + 2 <= 65535 && 0 <= unix(d.AccessTime) && unix(d.AccessTime) <= 4294967295 && 0 <= unix(d.ModTime) && unix(d.ModTime) <= 4294967295 && d.AccessTime == utc(unix(d.AccessTime)) && d.ModTime == utc(unix(d.ModTime))
 // nwname[2] nwname*(wname[s]) and nwqid[2] nwqid*(qid[13]): concatenation over the list, defined by recursion on the prefix length
 //@ pure namesUpto(s []string, n int) Bytes reads E:string
-//@ axiom [wiredef] names_0: forall s []string :: {namesUpto(s, 0)} namesUpto(s, 0) == bempty
-//@ axiom [wiredef] names_step: forall s []string, n int :: {namesUpto(s, n + 1)} 0 <= n && n < len(s) ==> namesUpto(s, n + 1) == bcat(namesUpto(s, n), encStr(s[n]))
+//@ axiom [wirelist] names_0: forall s []string :: {namesUpto(s, 0)} namesUpto(s, 0) == bempty
+//@ axiom [wirelist] names_step: forall s []string, n int :: {namesUpto(s, n + 1)} 0 <= n && n < len(s) ==> namesUpto(s, n + 1) == bcat(namesUpto(s, n), encStr(s[n]))
+//@ axiom [wirelist] names_step2: forall s []string, n int, m int :: {namesUpto(s, n), namesUpto(s, m)} m == n + 1 && 0 <= n && n < len(s) ==> namesUpto(s, m) == bcat(namesUpto(s, n), encStr(s[n]))
 //@ pure encNames(s []string) Bytes reads E:string = bcat(le2(len(s)), namesUpto(s, len(s)))
-//@ pure repNames(s []string) bool reads E:string = len(s) <= 65535 && forall(j, 0, len(s), len(s[j]) <= 65535)
+// element access as function symbols (quantified facts about list elements are triggered on these, not on index arithmetic)
+//@ pure strAt(s []string, k int) string reads E:string
+//@ axiom [wirelist] strAt_def: forall s []string, k int :: {strAt(s, k)} strAt(s, k) == s[k]
+//@ pure qidAt(s []Qid, k int) Qid reads E:p9p.Qid
+//@ axiom [wirelist] qidAt_def: forall s []Qid, k int :: {qidAt(s, k)} qidAt(s, k) == s[k]
+// the length of the j-th name, as a function symbol (so that quantified facts about it are triggered without index arithmetic)
+//@ pure nameLen(s []string, j int) int reads E:string
+//@ axiom [wirelist] nameLen_def: forall s []string, j int :: {nameLen(s, j)} nameLen(s, j) == len(s[j])
+//@ pure repNames(s []string) bool reads E:string = len(s) <= 65535 && (forall j int :: {nameLen(s, j)} 0 <= j && j < len(s) ==> nameLen(s, j) <= 65535)
 //@ pure qidsUpto(s []Qid, n int) Bytes reads E:p9p.Qid
-//@ axiom [wiredef] qids_0: forall s []Qid :: {qidsUpto(s, 0)} qidsUpto(s, 0) == bempty
-//@ axiom [wiredef] qids_step: forall s []Qid, n int :: {qidsUpto(s, n + 1)} 0 <= n && n < len(s) ==> qidsUpto(s, n + 1) == bcat(qidsUpto(s, n), encQid(s[n]))
+//@ axiom [wirelist] qids_0: forall s []Qid :: {qidsUpto(s, 0)} qidsUpto(s, 0) == bempty
+//@ axiom [wirelist] qids_step: forall s []Qid, n int :: {qidsUpto(s, n + 1)} 0 <= n && n < len(s) ==> qidsUpto(s, n + 1) == bcat(qidsUpto(s, n), encQid(s[n]))
+//@ axiom [wirelist] qids_step2: forall s []Qid, n int, m int :: {qidsUpto(s, n), qidsUpto(s, m)} m == n + 1 && 0 <= n && n < len(s) ==> qidsUpto(s, m) == bcat(qidsUpto(s, n), encQid(s[n]))
 //@ pure encQids(s []Qid) Bytes reads E:p9p.Qid = bcat(le2(len(s)), qidsUpto(s, len(s)))
+
+// suffix forms (what a reader still has to consume after i elements); unfolded only where both ends are named
+//@ pure namesFrom(s []string, i int) Bytes reads E:string
+//@ axiom [wirefrom] names_from_end: forall s []string :: {namesFrom(s, len(s))} namesFrom(s, len(s)) == bempty
+//@ axiom [wirefrom] names_from_step: forall s []string, i int, j int :: {namesFrom(s, i), namesFrom(s, j)} j == i + 1 && 0 <= i && i < len(s) ==> namesFrom(s, i) == bcat(encStr(s[i]), namesFrom(s, j))
+//@ pure qidsFrom(s []Qid, i int) Bytes reads E:p9p.Qid
+//@ axiom [wirefrom] qids_from_end: forall s []Qid :: {qidsFrom(s, len(s))} qidsFrom(s, len(s)) == bempty
+//@ axiom [wirefrom] qids_from_step: forall s []Qid, i int, j int :: {qidsFrom(s, i), qidsFrom(s, j)} j == i + 1 && 0 <= i && i < len(s) ==> qidsFrom(s, i) == bcat(encQid(s[i]), qidsFrom(s, j))
 
 //@ pure hdr(f Fcall) Bytes = bcat(le1(kindOf(f.Message)), le2(f.Tag))
 //@ pure layout(f Fcall) Bytes reads E:uint8 E:string E:p9p.Qid
@@ -995,59 +1013,59 @@ package p9p
 //@ axiom [wirekind] kind_Twstat: forall m Message :: {kindOf(m)} typeis(m, MessageTwstat) <==> kindOf(m) == 126
 //@ axiom [wirekind] kind_Rwstat: forall m Message :: {kindOf(m)} typeis(m, MessageRwstat) <==> kindOf(m) == 127
 //@ axiom [wiredef] enc_Tversion: forall f Fcall :: {layout(f)} typeis(f.Message, MessageTversion) ==> layout(f) == bcat(bcat(bcat(bcat(bcat(bempty, le1(kindOf(f.Message))), le2(f.Tag)), le4(f.Message.(MessageTversion).MSize)), le2(len(f.Message.(MessageTversion).Version))), sbytes(f.Message.(MessageTversion).Version))
-//@ lemma [wiredefr from wirekind wiredef assoc_r bytes noassoc] [C01] encr_Tversion: forall f Fcall :: {layout(f)} typeis(f.Message, MessageTversion) ==> layout(f) == bcat(le1(kindOf(f.Message)), bcat(le2(f.Tag), bcat(le4(f.Message.(MessageTversion).MSize), bcat(le2(len(f.Message.(MessageTversion).Version)), sbytes(f.Message.(MessageTversion).Version)))))
+//@ lemma [wiredefr from wirelist wirekind wiredef assoc_r bytes noassoc] [C01] encr_Tversion: forall f Fcall :: {layout(f)} typeis(f.Message, MessageTversion) ==> layout(f) == bcat(le1(kindOf(f.Message)), bcat(le2(f.Tag), bcat(le4(f.Message.(MessageTversion).MSize), bcat(le2(len(f.Message.(MessageTversion).Version)), sbytes(f.Message.(MessageTversion).Version)))))
 //@ axiom [wiredef] enc_Rversion: forall f Fcall :: {layout(f)} typeis(f.Message, MessageRversion) ==> layout(f) == bcat(bcat(bcat(bcat(bcat(bempty, le1(kindOf(f.Message))), le2(f.Tag)), le4(f.Message.(MessageRversion).MSize)), le2(len(f.Message.(MessageRversion).Version))), sbytes(f.Message.(MessageRversion).Version))
-//@ lemma [wiredefr from wirekind wiredef assoc_r bytes noassoc] [C01] encr_Rversion: forall f Fcall :: {layout(f)} typeis(f.Message, MessageRversion) ==> layout(f) == bcat(le1(kindOf(f.Message)), bcat(le2(f.Tag), bcat(le4(f.Message.(MessageRversion).MSize), bcat(le2(len(f.Message.(MessageRversion).Version)), sbytes(f.Message.(MessageRversion).Version)))))
+//@ lemma [wiredefr from wirelist wirekind wiredef assoc_r bytes noassoc] [C01] encr_Rversion: forall f Fcall :: {layout(f)} typeis(f.Message, MessageRversion) ==> layout(f) == bcat(le1(kindOf(f.Message)), bcat(le2(f.Tag), bcat(le4(f.Message.(MessageRversion).MSize), bcat(le2(len(f.Message.(MessageRversion).Version)), sbytes(f.Message.(MessageRversion).Version)))))
 //@ axiom [wiredef] enc_Tauth: forall f Fcall :: {layout(f)} typeis(f.Message, MessageTauth) ==> layout(f) == bcat(bcat(bcat(bcat(bcat(bcat(bcat(bempty, le1(kindOf(f.Message))), le2(f.Tag)), le4(f.Message.(MessageTauth).Afid)), le2(len(f.Message.(MessageTauth).Uname))), sbytes(f.Message.(MessageTauth).Uname)), le2(len(f.Message.(MessageTauth).Aname))), sbytes(f.Message.(MessageTauth).Aname))
-//@ lemma [wiredefr from wirekind wiredef assoc_r bytes noassoc] [C01] encr_Tauth: forall f Fcall :: {layout(f)} typeis(f.Message, MessageTauth) ==> layout(f) == bcat(le1(kindOf(f.Message)), bcat(le2(f.Tag), bcat(le4(f.Message.(MessageTauth).Afid), bcat(le2(len(f.Message.(MessageTauth).Uname)), bcat(sbytes(f.Message.(MessageTauth).Uname), bcat(le2(len(f.Message.(MessageTauth).Aname)), sbytes(f.Message.(MessageTauth).Aname)))))))
+//@ lemma [wiredefr from wirelist wirekind wiredef assoc_r bytes noassoc] [C01] encr_Tauth: forall f Fcall :: {layout(f)} typeis(f.Message, MessageTauth) ==> layout(f) == bcat(le1(kindOf(f.Message)), bcat(le2(f.Tag), bcat(le4(f.Message.(MessageTauth).Afid), bcat(le2(len(f.Message.(MessageTauth).Uname)), bcat(sbytes(f.Message.(MessageTauth).Uname), bcat(le2(len(f.Message.(MessageTauth).Aname)), sbytes(f.Message.(MessageTauth).Aname)))))))
 //@ axiom [wiredef] enc_Rauth: forall f Fcall :: {layout(f)} typeis(f.Message, MessageRauth) ==> layout(f) == bcat(bcat(bcat(bcat(bcat(bempty, le1(kindOf(f.Message))), le2(f.Tag)), le1(f.Message.(MessageRauth).Qid.Type)), le4(f.Message.(MessageRauth).Qid.Version)), le8(f.Message.(MessageRauth).Qid.Path))
-//@ lemma [wiredefr from wirekind wiredef assoc_r bytes noassoc] [C01] encr_Rauth: forall f Fcall :: {layout(f)} typeis(f.Message, MessageRauth) ==> layout(f) == bcat(le1(kindOf(f.Message)), bcat(le2(f.Tag), bcat(le1(f.Message.(MessageRauth).Qid.Type), bcat(le4(f.Message.(MessageRauth).Qid.Version), le8(f.Message.(MessageRauth).Qid.Path)))))
+//@ lemma [wiredefr from wirelist wirekind wiredef assoc_r bytes noassoc] [C01] encr_Rauth: forall f Fcall :: {layout(f)} typeis(f.Message, MessageRauth) ==> layout(f) == bcat(le1(kindOf(f.Message)), bcat(le2(f.Tag), bcat(le1(f.Message.(MessageRauth).Qid.Type), bcat(le4(f.Message.(MessageRauth).Qid.Version), le8(f.Message.(MessageRauth).Qid.Path)))))
 //@ axiom [wiredef] enc_Tattach: forall f Fcall :: {layout(f)} typeis(f.Message, MessageTattach) ==> layout(f) == bcat(bcat(bcat(bcat(bcat(bcat(bcat(bcat(bempty, le1(kindOf(f.Message))), le2(f.Tag)), le4(f.Message.(MessageTattach).Fid)), le4(f.Message.(MessageTattach).Afid)), le2(len(f.Message.(MessageTattach).Uname))), sbytes(f.Message.(MessageTattach).Uname)), le2(len(f.Message.(MessageTattach).Aname))), sbytes(f.Message.(MessageTattach).Aname))
-//@ lemma [wiredefr from wirekind wiredef assoc_r bytes noassoc] [C01] encr_Tattach: forall f Fcall :: {layout(f)} typeis(f.Message, MessageTattach) ==> layout(f) == bcat(le1(kindOf(f.Message)), bcat(le2(f.Tag), bcat(le4(f.Message.(MessageTattach).Fid), bcat(le4(f.Message.(MessageTattach).Afid), bcat(le2(len(f.Message.(MessageTattach).Uname)), bcat(sbytes(f.Message.(MessageTattach).Uname), bcat(le2(len(f.Message.(MessageTattach).Aname)), sbytes(f.Message.(MessageTattach).Aname))))))))
+//@ lemma [wiredefr from wirelist wirekind wiredef assoc_r bytes noassoc] [C01] encr_Tattach: forall f Fcall :: {layout(f)} typeis(f.Message, MessageTattach) ==> layout(f) == bcat(le1(kindOf(f.Message)), bcat(le2(f.Tag), bcat(le4(f.Message.(MessageTattach).Fid), bcat(le4(f.Message.(MessageTattach).Afid), bcat(le2(len(f.Message.(MessageTattach).Uname)), bcat(sbytes(f.Message.(MessageTattach).Uname), bcat(le2(len(f.Message.(MessageTattach).Aname)), sbytes(f.Message.(MessageTattach).Aname))))))))
 //@ axiom [wiredef] enc_Rattach: forall f Fcall :: {layout(f)} typeis(f.Message, MessageRattach) ==> layout(f) == bcat(bcat(bcat(bcat(bcat(bempty, le1(kindOf(f.Message))), le2(f.Tag)), le1(f.Message.(MessageRattach).Qid.Type)), le4(f.Message.(MessageRattach).Qid.Version)), le8(f.Message.(MessageRattach).Qid.Path))
-//@ lemma [wiredefr from wirekind wiredef assoc_r bytes noassoc] [C01] encr_Rattach: forall f Fcall :: {layout(f)} typeis(f.Message, MessageRattach) ==> layout(f) == bcat(le1(kindOf(f.Message)), bcat(le2(f.Tag), bcat(le1(f.Message.(MessageRattach).Qid.Type), bcat(le4(f.Message.(MessageRattach).Qid.Version), le8(f.Message.(MessageRattach).Qid.Path)))))
+//@ lemma [wiredefr from wirelist wirekind wiredef assoc_r bytes noassoc] [C01] encr_Rattach: forall f Fcall :: {layout(f)} typeis(f.Message, MessageRattach) ==> layout(f) == bcat(le1(kindOf(f.Message)), bcat(le2(f.Tag), bcat(le1(f.Message.(MessageRattach).Qid.Type), bcat(le4(f.Message.(MessageRattach).Qid.Version), le8(f.Message.(MessageRattach).Qid.Path)))))
 //@ axiom [wiredef] enc_Rerror: forall f Fcall :: {layout(f)} typeis(f.Message, MessageRerror) ==> layout(f) == bcat(bcat(bcat(bcat(bempty, le1(kindOf(f.Message))), le2(f.Tag)), le2(len(f.Message.(MessageRerror).Ename))), sbytes(f.Message.(MessageRerror).Ename))
-//@ lemma [wiredefr from wirekind wiredef assoc_r bytes noassoc] [C01] encr_Rerror: forall f Fcall :: {layout(f)} typeis(f.Message, MessageRerror) ==> layout(f) == bcat(le1(kindOf(f.Message)), bcat(le2(f.Tag), bcat(le2(len(f.Message.(MessageRerror).Ename)), sbytes(f.Message.(MessageRerror).Ename))))
+//@ lemma [wiredefr from wirelist wirekind wiredef assoc_r bytes noassoc] [C01] encr_Rerror: forall f Fcall :: {layout(f)} typeis(f.Message, MessageRerror) ==> layout(f) == bcat(le1(kindOf(f.Message)), bcat(le2(f.Tag), bcat(le2(len(f.Message.(MessageRerror).Ename)), sbytes(f.Message.(MessageRerror).Ename))))
 //@ axiom [wiredef] enc_Tflush: forall f Fcall :: {layout(f)} typeis(f.Message, MessageTflush) ==> layout(f) == bcat(bcat(bcat(bempty, le1(kindOf(f.Message))), le2(f.Tag)), le2(f.Message.(MessageTflush).Oldtag))
-//@ lemma [wiredefr from wirekind wiredef assoc_r bytes noassoc] [C01] encr_Tflush: forall f Fcall :: {layout(f)} typeis(f.Message, MessageTflush) ==> layout(f) == bcat(le1(kindOf(f.Message)), bcat(le2(f.Tag), le2(f.Message.(MessageTflush).Oldtag)))
+//@ lemma [wiredefr from wirelist wirekind wiredef assoc_r bytes noassoc] [C01] encr_Tflush: forall f Fcall :: {layout(f)} typeis(f.Message, MessageTflush) ==> layout(f) == bcat(le1(kindOf(f.Message)), bcat(le2(f.Tag), le2(f.Message.(MessageTflush).Oldtag)))
 //@ axiom [wiredef] enc_Rflush: forall f Fcall :: {layout(f)} typeis(f.Message, MessageRflush) ==> layout(f) == bcat(bcat(bempty, le1(kindOf(f.Message))), le2(f.Tag))
-//@ lemma [wiredefr from wirekind wiredef assoc_r bytes noassoc] [C01] encr_Rflush: forall f Fcall :: {layout(f)} typeis(f.Message, MessageRflush) ==> layout(f) == bcat(le1(kindOf(f.Message)), le2(f.Tag))
+//@ lemma [wiredefr from wirelist wirekind wiredef assoc_r bytes noassoc] [C01] encr_Rflush: forall f Fcall :: {layout(f)} typeis(f.Message, MessageRflush) ==> layout(f) == bcat(le1(kindOf(f.Message)), le2(f.Tag))
 //@ axiom [wiredef] enc_Twalk: forall f Fcall :: {layout(f)} typeis(f.Message, MessageTwalk) ==> layout(f) == bcat(bcat(bcat(bcat(bcat(bcat(bempty, le1(kindOf(f.Message))), le2(f.Tag)), le4(f.Message.(MessageTwalk).Fid)), le4(f.Message.(MessageTwalk).Newfid)), le2(len(f.Message.(MessageTwalk).Wnames))), namesUpto(f.Message.(MessageTwalk).Wnames, len(f.Message.(MessageTwalk).Wnames)))
-//@ lemma [wiredefr from wirekind wiredef assoc_r bytes noassoc] [C01] encr_Twalk: forall f Fcall :: {layout(f)} typeis(f.Message, MessageTwalk) ==> layout(f) == bcat(le1(kindOf(f.Message)), bcat(le2(f.Tag), bcat(le4(f.Message.(MessageTwalk).Fid), bcat(le4(f.Message.(MessageTwalk).Newfid), bcat(le2(len(f.Message.(MessageTwalk).Wnames)), namesUpto(f.Message.(MessageTwalk).Wnames, len(f.Message.(MessageTwalk).Wnames)))))))
+//@ lemma [wiredefr from wirelist wirekind wiredef assoc_r bytes noassoc] [C01] encr_Twalk: forall f Fcall :: {layout(f)} typeis(f.Message, MessageTwalk) ==> layout(f) == bcat(le1(kindOf(f.Message)), bcat(le2(f.Tag), bcat(le4(f.Message.(MessageTwalk).Fid), bcat(le4(f.Message.(MessageTwalk).Newfid), bcat(le2(len(f.Message.(MessageTwalk).Wnames)), namesUpto(f.Message.(MessageTwalk).Wnames, len(f.Message.(MessageTwalk).Wnames)))))))
 //@ axiom [wiredef] enc_Rwalk: forall f Fcall :: {layout(f)} typeis(f.Message, MessageRwalk) ==> layout(f) == bcat(bcat(bcat(bcat(bempty, le1(kindOf(f.Message))), le2(f.Tag)), le2(len(f.Message.(MessageRwalk).Qids))), qidsUpto(f.Message.(MessageRwalk).Qids, len(f.Message.(MessageRwalk).Qids)))
-//@ lemma [wiredefr from wirekind wiredef assoc_r bytes noassoc] [C01] encr_Rwalk: forall f Fcall :: {layout(f)} typeis(f.Message, MessageRwalk) ==> layout(f) == bcat(le1(kindOf(f.Message)), bcat(le2(f.Tag), bcat(le2(len(f.Message.(MessageRwalk).Qids)), qidsUpto(f.Message.(MessageRwalk).Qids, len(f.Message.(MessageRwalk).Qids)))))
+//@ lemma [wiredefr from wirelist wirekind wiredef assoc_r bytes noassoc] [C01] encr_Rwalk: forall f Fcall :: {layout(f)} typeis(f.Message, MessageRwalk) ==> layout(f) == bcat(le1(kindOf(f.Message)), bcat(le2(f.Tag), bcat(le2(len(f.Message.(MessageRwalk).Qids)), qidsUpto(f.Message.(MessageRwalk).Qids, len(f.Message.(MessageRwalk).Qids)))))
 //@ axiom [wiredef] enc_Topen: forall f Fcall :: {layout(f)} typeis(f.Message, MessageTopen) ==> layout(f) == bcat(bcat(bcat(bcat(bempty, le1(kindOf(f.Message))), le2(f.Tag)), le4(f.Message.(MessageTopen).Fid)), le1(f.Message.(MessageTopen).Mode))
-//@ lemma [wiredefr from wirekind wiredef assoc_r bytes noassoc] [C01] encr_Topen: forall f Fcall :: {layout(f)} typeis(f.Message, MessageTopen) ==> layout(f) == bcat(le1(kindOf(f.Message)), bcat(le2(f.Tag), bcat(le4(f.Message.(MessageTopen).Fid), le1(f.Message.(MessageTopen).Mode))))
+//@ lemma [wiredefr from wirelist wirekind wiredef assoc_r bytes noassoc] [C01] encr_Topen: forall f Fcall :: {layout(f)} typeis(f.Message, MessageTopen) ==> layout(f) == bcat(le1(kindOf(f.Message)), bcat(le2(f.Tag), bcat(le4(f.Message.(MessageTopen).Fid), le1(f.Message.(MessageTopen).Mode))))
 //@ axiom [wiredef] enc_Ropen: forall f Fcall :: {layout(f)} typeis(f.Message, MessageRopen) ==> layout(f) == bcat(bcat(bcat(bcat(bcat(bcat(bempty, le1(kindOf(f.Message))), le2(f.Tag)), le1(f.Message.(MessageRopen).Qid.Type)), le4(f.Message.(MessageRopen).Qid.Version)), le8(f.Message.(MessageRopen).Qid.Path)), le4(f.Message.(MessageRopen).IOUnit))
-//@ lemma [wiredefr from wirekind wiredef assoc_r bytes noassoc] [C01] encr_Ropen: forall f Fcall :: {layout(f)} typeis(f.Message, MessageRopen) ==> layout(f) == bcat(le1(kindOf(f.Message)), bcat(le2(f.Tag), bcat(le1(f.Message.(MessageRopen).Qid.Type), bcat(le4(f.Message.(MessageRopen).Qid.Version), bcat(le8(f.Message.(MessageRopen).Qid.Path), le4(f.Message.(MessageRopen).IOUnit))))))
+//@ lemma [wiredefr from wirelist wirekind wiredef assoc_r bytes noassoc] [C01] encr_Ropen: forall f Fcall :: {layout(f)} typeis(f.Message, MessageRopen) ==> layout(f) == bcat(le1(kindOf(f.Message)), bcat(le2(f.Tag), bcat(le1(f.Message.(MessageRopen).Qid.Type), bcat(le4(f.Message.(MessageRopen).Qid.Version), bcat(le8(f.Message.(MessageRopen).Qid.Path), le4(f.Message.(MessageRopen).IOUnit))))))
 //@ axiom [wiredef] enc_Tcreate: forall f Fcall :: {layout(f)} typeis(f.Message, MessageTcreate) ==> layout(f) == bcat(bcat(bcat(bcat(bcat(bcat(bcat(bempty, le1(kindOf(f.Message))), le2(f.Tag)), le4(f.Message.(MessageTcreate).Fid)), le2(len(f.Message.(MessageTcreate).Name))), sbytes(f.Message.(MessageTcreate).Name)), le4(f.Message.(MessageTcreate).Perm)), le1(f.Message.(MessageTcreate).Mode))
-//@ lemma [wiredefr from wirekind wiredef assoc_r bytes noassoc] [C01] encr_Tcreate: forall f Fcall :: {layout(f)} typeis(f.Message, MessageTcreate) ==> layout(f) == bcat(le1(kindOf(f.Message)), bcat(le2(f.Tag), bcat(le4(f.Message.(MessageTcreate).Fid), bcat(le2(len(f.Message.(MessageTcreate).Name)), bcat(sbytes(f.Message.(MessageTcreate).Name), bcat(le4(f.Message.(MessageTcreate).Perm), le1(f.Message.(MessageTcreate).Mode)))))))
+//@ lemma [wiredefr from wirelist wirekind wiredef assoc_r bytes noassoc] [C01] encr_Tcreate: forall f Fcall :: {layout(f)} typeis(f.Message, MessageTcreate) ==> layout(f) == bcat(le1(kindOf(f.Message)), bcat(le2(f.Tag), bcat(le4(f.Message.(MessageTcreate).Fid), bcat(le2(len(f.Message.(MessageTcreate).Name)), bcat(sbytes(f.Message.(MessageTcreate).Name), bcat(le4(f.Message.(MessageTcreate).Perm), le1(f.Message.(MessageTcreate).Mode)))))))
 //@ axiom [wiredef] enc_Rcreate: forall f Fcall :: {layout(f)} typeis(f.Message, MessageRcreate) ==> layout(f) == bcat(bcat(bcat(bcat(bcat(bcat(bempty, le1(kindOf(f.Message))), le2(f.Tag)), le1(f.Message.(MessageRcreate).Qid.Type)), le4(f.Message.(MessageRcreate).Qid.Version)), le8(f.Message.(MessageRcreate).Qid.Path)), le4(f.Message.(MessageRcreate).IOUnit))
-//@ lemma [wiredefr from wirekind wiredef assoc_r bytes noassoc] [C01] encr_Rcreate: forall f Fcall :: {layout(f)} typeis(f.Message, MessageRcreate) ==> layout(f) == bcat(le1(kindOf(f.Message)), bcat(le2(f.Tag), bcat(le1(f.Message.(MessageRcreate).Qid.Type), bcat(le4(f.Message.(MessageRcreate).Qid.Version), bcat(le8(f.Message.(MessageRcreate).Qid.Path), le4(f.Message.(MessageRcreate).IOUnit))))))
+//@ lemma [wiredefr from wirelist wirekind wiredef assoc_r bytes noassoc] [C01] encr_Rcreate: forall f Fcall :: {layout(f)} typeis(f.Message, MessageRcreate) ==> layout(f) == bcat(le1(kindOf(f.Message)), bcat(le2(f.Tag), bcat(le1(f.Message.(MessageRcreate).Qid.Type), bcat(le4(f.Message.(MessageRcreate).Qid.Version), bcat(le8(f.Message.(MessageRcreate).Qid.Path), le4(f.Message.(MessageRcreate).IOUnit))))))
 //@ axiom [wiredef] enc_Tread: forall f Fcall :: {layout(f)} typeis(f.Message, MessageTread) ==> layout(f) == bcat(bcat(bcat(bcat(bcat(bempty, le1(kindOf(f.Message))), le2(f.Tag)), le4(f.Message.(MessageTread).Fid)), le8(f.Message.(MessageTread).Offset)), le4(f.Message.(MessageTread).Count))
-//@ lemma [wiredefr from wirekind wiredef assoc_r bytes noassoc] [C01] encr_Tread: forall f Fcall :: {layout(f)} typeis(f.Message, MessageTread) ==> layout(f) == bcat(le1(kindOf(f.Message)), bcat(le2(f.Tag), bcat(le4(f.Message.(MessageTread).Fid), bcat(le8(f.Message.(MessageTread).Offset), le4(f.Message.(MessageTread).Count)))))
+//@ lemma [wiredefr from wirelist wirekind wiredef assoc_r bytes noassoc] [C01] encr_Tread: forall f Fcall :: {layout(f)} typeis(f.Message, MessageTread) ==> layout(f) == bcat(le1(kindOf(f.Message)), bcat(le2(f.Tag), bcat(le4(f.Message.(MessageTread).Fid), bcat(le8(f.Message.(MessageTread).Offset), le4(f.Message.(MessageTread).Count)))))
 //@ axiom [wiredef] enc_Rread: forall f Fcall :: {layout(f)} typeis(f.Message, MessageRread) ==> layout(f) == bcat(bcat(bcat(bcat(bempty, le1(kindOf(f.Message))), le2(f.Tag)), le4(len(f.Message.(MessageRread).Data))), bytes(f.Message.(MessageRread).Data))
-//@ lemma [wiredefr from wirekind wiredef assoc_r bytes noassoc] [C01] encr_Rread: forall f Fcall :: {layout(f)} typeis(f.Message, MessageRread) ==> layout(f) == bcat(le1(kindOf(f.Message)), bcat(le2(f.Tag), bcat(le4(len(f.Message.(MessageRread).Data)), bytes(f.Message.(MessageRread).Data))))
+//@ lemma [wiredefr from wirelist wirekind wiredef assoc_r bytes noassoc] [C01] encr_Rread: forall f Fcall :: {layout(f)} typeis(f.Message, MessageRread) ==> layout(f) == bcat(le1(kindOf(f.Message)), bcat(le2(f.Tag), bcat(le4(len(f.Message.(MessageRread).Data)), bytes(f.Message.(MessageRread).Data))))
 //@ axiom [wiredef] enc_Twrite: forall f Fcall :: {layout(f)} typeis(f.Message, MessageTwrite) ==> layout(f) == bcat(bcat(bcat(bcat(bcat(bcat(bempty, le1(kindOf(f.Message))), le2(f.Tag)), le4(f.Message.(MessageTwrite).Fid)), le8(f.Message.(MessageTwrite).Offset)), le4(len(f.Message.(MessageTwrite).Data))), bytes(f.Message.(MessageTwrite).Data))
-//@ lemma [wiredefr from wirekind wiredef assoc_r bytes noassoc] [C01] encr_Twrite: forall f Fcall :: {layout(f)} typeis(f.Message, MessageTwrite) ==> layout(f) == bcat(le1(kindOf(f.Message)), bcat(le2(f.Tag), bcat(le4(f.Message.(MessageTwrite).Fid), bcat(le8(f.Message.(MessageTwrite).Offset), bcat(le4(len(f.Message.(MessageTwrite).Data)), bytes(f.Message.(MessageTwrite).Data))))))
+//@ lemma [wiredefr from wirelist wirekind wiredef assoc_r bytes noassoc] [C01] encr_Twrite: forall f Fcall :: {layout(f)} typeis(f.Message, MessageTwrite) ==> layout(f) == bcat(le1(kindOf(f.Message)), bcat(le2(f.Tag), bcat(le4(f.Message.(MessageTwrite).Fid), bcat(le8(f.Message.(MessageTwrite).Offset), bcat(le4(len(f.Message.(MessageTwrite).Data)), bytes(f.Message.(MessageTwrite).Data))))))
 //@ axiom [wiredef] enc_Rwrite: forall f Fcall :: {layout(f)} typeis(f.Message, MessageRwrite) ==> layout(f) == bcat(bcat(bcat(bempty, le1(kindOf(f.Message))), le2(f.Tag)), le4(f.Message.(MessageRwrite).Count))
-//@ lemma [wiredefr from wirekind wiredef assoc_r bytes noassoc] [C01] encr_Rwrite: forall f Fcall :: {layout(f)} typeis(f.Message, MessageRwrite) ==> layout(f) == bcat(le1(kindOf(f.Message)), bcat(le2(f.Tag), le4(f.Message.(MessageRwrite).Count)))
+//@ lemma [wiredefr from wirelist wirekind wiredef assoc_r bytes noassoc] [C01] encr_Rwrite: forall f Fcall :: {layout(f)} typeis(f.Message, MessageRwrite) ==> layout(f) == bcat(le1(kindOf(f.Message)), bcat(le2(f.Tag), le4(f.Message.(MessageRwrite).Count)))
 //@ axiom [wiredef] enc_Tclunk: forall f Fcall :: {layout(f)} typeis(f.Message, MessageTclunk) ==> layout(f) == bcat(bcat(bcat(bempty, le1(kindOf(f.Message))), le2(f.Tag)), le4(f.Message.(MessageTclunk).Fid))
-//@ lemma [wiredefr from wirekind wiredef assoc_r bytes noassoc] [C01] encr_Tclunk: forall f Fcall :: {layout(f)} typeis(f.Message, MessageTclunk) ==> layout(f) == bcat(le1(kindOf(f.Message)), bcat(le2(f.Tag), le4(f.Message.(MessageTclunk).Fid)))
+//@ lemma [wiredefr from wirelist wirekind wiredef assoc_r bytes noassoc] [C01] encr_Tclunk: forall f Fcall :: {layout(f)} typeis(f.Message, MessageTclunk) ==> layout(f) == bcat(le1(kindOf(f.Message)), bcat(le2(f.Tag), le4(f.Message.(MessageTclunk).Fid)))
 //@ axiom [wiredef] enc_Rclunk: forall f Fcall :: {layout(f)} typeis(f.Message, MessageRclunk) ==> layout(f) == bcat(bcat(bempty, le1(kindOf(f.Message))), le2(f.Tag))
-//@ lemma [wiredefr from wirekind wiredef assoc_r bytes noassoc] [C01] encr_Rclunk: forall f Fcall :: {layout(f)} typeis(f.Message, MessageRclunk) ==> layout(f) == bcat(le1(kindOf(f.Message)), le2(f.Tag))
+//@ lemma [wiredefr from wirelist wirekind wiredef assoc_r bytes noassoc] [C01] encr_Rclunk: forall f Fcall :: {layout(f)} typeis(f.Message, MessageRclunk) ==> layout(f) == bcat(le1(kindOf(f.Message)), le2(f.Tag))
 //@ axiom [wiredef] enc_Tremove: forall f Fcall :: {layout(f)} typeis(f.Message, MessageTremove) ==> layout(f) == bcat(bcat(bcat(bempty, le1(kindOf(f.Message))), le2(f.Tag)), le4(f.Message.(MessageTremove).Fid))
-//@ lemma [wiredefr from wirekind wiredef assoc_r bytes noassoc] [C01] encr_Tremove: forall f Fcall :: {layout(f)} typeis(f.Message, MessageTremove) ==> layout(f) == bcat(le1(kindOf(f.Message)), bcat(le2(f.Tag), le4(f.Message.(MessageTremove).Fid)))
+//@ lemma [wiredefr from wirelist wirekind wiredef assoc_r bytes noassoc] [C01] encr_Tremove: forall f Fcall :: {layout(f)} typeis(f.Message, MessageTremove) ==> layout(f) == bcat(le1(kindOf(f.Message)), bcat(le2(f.Tag), le4(f.Message.(MessageTremove).Fid)))
 //@ axiom [wiredef] enc_Rremove: forall f Fcall :: {layout(f)} typeis(f.Message, MessageRremove) ==> layout(f) == bcat(bcat(bempty, le1(kindOf(f.Message))), le2(f.Tag))
-//@ lemma [wiredefr from wirekind wiredef assoc_r bytes noassoc] [C01] encr_Rremove: forall f Fcall :: {layout(f)} typeis(f.Message, MessageRremove) ==> layout(f) == bcat(le1(kindOf(f.Message)), le2(f.Tag))
+//@ lemma [wiredefr from wirelist wirekind wiredef assoc_r bytes noassoc] [C01] encr_Rremove: forall f Fcall :: {layout(f)} typeis(f.Message, MessageRremove) ==> layout(f) == bcat(le1(kindOf(f.Message)), le2(f.Tag))
 //@ axiom [wiredef] enc_Tstat: forall f Fcall :: {layout(f)} typeis(f.Message, MessageTstat) ==> layout(f) == bcat(bcat(bcat(bempty, le1(kindOf(f.Message))), le2(f.Tag)), le4(f.Message.(MessageTstat).Fid))
-//@ lemma [wiredefr from wirekind wiredef assoc_r bytes noassoc] [C01] encr_Tstat: forall f Fcall :: {layout(f)} typeis(f.Message, MessageTstat) ==> layout(f) == bcat(le1(kindOf(f.Message)), bcat(le2(f.Tag), le4(f.Message.(MessageTstat).Fid)))
+//@ lemma [wiredefr from wirelist wirekind wiredef assoc_r bytes noassoc] [C01] encr_Tstat: forall f Fcall :: {layout(f)} typeis(f.Message, MessageTstat) ==> layout(f) == bcat(le1(kindOf(f.Message)), bcat(le2(f.Tag), le4(f.Message.(MessageTstat).Fid)))
 //@ axiom [wiredef] enc_Rstat: forall f Fcall :: {layout(f)} typeis(f.Message, MessageRstat) ==> layout(f) == bcat(bcat(bcat(bcat(bcat(bcat(bcat(bcat(bcat(bcat(bcat(bcat(bcat(bcat(bcat(bcat(bcat(bcat(bcat(bcat(bcat(bempty, le1(kindOf(f.Message))), le2(f.Tag)), le2(dirLen(f.Message.(MessageRstat).Stat) + 2)), le2(dirLen(f.Message.(MessageRstat).Stat))), le2(f.Message.(MessageRstat).Stat.Type)), le4(f.Message.(MessageRstat).Stat.Dev)), le1(f.Message.(MessageRstat).Stat.Qid.Type)), le4(f.Message.(MessageRstat).Stat.Qid.Version)), le8(f.Message.(MessageRstat).Stat.Qid.Path)), le4(f.Message.(MessageRstat).Stat.Mode)), le4(unix(f.Message.(MessageRstat).Stat.AccessTime))), le4(unix(f.Message.(MessageRstat).Stat.ModTime))), le8(f.Message.(MessageRstat).Stat.Length)), le2(len(f.Message.(MessageRstat).Stat.Name))), sbytes(f.Message.(MessageRstat).Stat.Name)), le2(len(f.Message.(MessageRstat).Stat.UID))), sbytes(f.Message.(MessageRstat).Stat.UID)), le2(len(f.Message.(MessageRstat).Stat.GID))), sbytes(f.Message.(MessageRstat).Stat.GID)), le2(len(f.Message.(MessageRstat).Stat.MUID))), sbytes(f.Message.(MessageRstat).Stat.MUID))
-//@ lemma [wiredefr from wirekind wiredef assoc_r bytes noassoc] [C01] encr_Rstat: forall f Fcall :: {layout(f)} typeis(f.Message, MessageRstat) ==> layout(f) == bcat(le1(kindOf(f.Message)), bcat(le2(f.Tag), bcat(le2(dirLen(f.Message.(MessageRstat).Stat) + 2), bcat(le2(dirLen(f.Message.(MessageRstat).Stat)), bcat(le2(f.Message.(MessageRstat).Stat.Type), bcat(le4(f.Message.(MessageRstat).Stat.Dev), bcat(le1(f.Message.(MessageRstat).Stat.Qid.Type), bcat(le4(f.Message.(MessageRstat).Stat.Qid.Version), bcat(le8(f.Message.(MessageRstat).Stat.Qid.Path), bcat(le4(f.Message.(MessageRstat).Stat.Mode), bcat(le4(unix(f.Message.(MessageRstat).Stat.AccessTime)), bcat(le4(unix(f.Message.(MessageRstat).Stat.ModTime)), bcat(le8(f.Message.(MessageRstat).Stat.Length), bcat(le2(len(f.Message.(MessageRstat).Stat.Name)), bcat(sbytes(f.Message.(MessageRstat).Stat.Name), bcat(le2(len(f.Message.(MessageRstat).Stat.UID)), bcat(sbytes(f.Message.(MessageRstat).Stat.UID), bcat(le2(len(f.Message.(MessageRstat).Stat.GID)), bcat(sbytes(f.Message.(MessageRstat).Stat.GID), bcat(le2(len(f.Message.(MessageRstat).Stat.MUID)), sbytes(f.Message.(MessageRstat).Stat.MUID)))))))))))))))))))))
+//@ lemma [wiredefr from wirelist wirekind wiredef assoc_r bytes noassoc] [C01] encr_Rstat: forall f Fcall :: {layout(f)} typeis(f.Message, MessageRstat) ==> layout(f) == bcat(le1(kindOf(f.Message)), bcat(le2(f.Tag), bcat(le2(dirLen(f.Message.(MessageRstat).Stat) + 2), bcat(le2(dirLen(f.Message.(MessageRstat).Stat)), bcat(le2(f.Message.(MessageRstat).Stat.Type), bcat(le4(f.Message.(MessageRstat).Stat.Dev), bcat(le1(f.Message.(MessageRstat).Stat.Qid.Type), bcat(le4(f.Message.(MessageRstat).Stat.Qid.Version), bcat(le8(f.Message.(MessageRstat).Stat.Qid.Path), bcat(le4(f.Message.(MessageRstat).Stat.Mode), bcat(le4(unix(f.Message.(MessageRstat).Stat.AccessTime)), bcat(le4(unix(f.Message.(MessageRstat).Stat.ModTime)), bcat(le8(f.Message.(MessageRstat).Stat.Length), bcat(le2(len(f.Message.(MessageRstat).Stat.Name)), bcat(sbytes(f.Message.(MessageRstat).Stat.Name), bcat(le2(len(f.Message.(MessageRstat).Stat.UID)), bcat(sbytes(f.Message.(MessageRstat).Stat.UID), bcat(le2(len(f.Message.(MessageRstat).Stat.GID)), bcat(sbytes(f.Message.(MessageRstat).Stat.GID), bcat(le2(len(f.Message.(MessageRstat).Stat.MUID)), sbytes(f.Message.(MessageRstat).Stat.MUID)))))))))))))))))))))
 //@ axiom [wiredef] enc_Twstat: forall f Fcall :: {layout(f)} typeis(f.Message, MessageTwstat) ==> layout(f) == bcat(bcat(bcat(bcat(bcat(bcat(bcat(bcat(bcat(bcat(bcat(bcat(bcat(bcat(bcat(bcat(bcat(bcat(bcat(bcat(bcat(bcat(bempty, le1(kindOf(f.Message))), le2(f.Tag)), le4(f.Message.(MessageTwstat).Fid)), le2(dirLen(f.Message.(MessageTwstat).Stat) + 2)), le2(dirLen(f.Message.(MessageTwstat).Stat))), le2(f.Message.(MessageTwstat).Stat.Type)), le4(f.Message.(MessageTwstat).Stat.Dev)), le1(f.Message.(MessageTwstat).Stat.Qid.Type)), le4(f.Message.(MessageTwstat).Stat.Qid.Version)), le8(f.Message.(MessageTwstat).Stat.Qid.Path)), le4(f.Message.(MessageTwstat).Stat.Mode)), le4(unix(f.Message.(MessageTwstat).Stat.AccessTime))), le4(unix(f.Message.(MessageTwstat).Stat.ModTime))), le8(f.Message.(MessageTwstat).Stat.Length)), le2(len(f.Message.(MessageTwstat).Stat.Name))), sbytes(f.Message.(MessageTwstat).Stat.Name)), le2(len(f.Message.(MessageTwstat).Stat.UID))), sbytes(f.Message.(MessageTwstat).Stat.UID)), le2(len(f.Message.(MessageTwstat).Stat.GID))), sbytes(f.Message.(MessageTwstat).Stat.GID)), le2(len(f.Message.(MessageTwstat).Stat.MUID))), sbytes(f.Message.(MessageTwstat).Stat.MUID))
-//@ lemma [wiredefr from wirekind wiredef assoc_r bytes noassoc] [C01] encr_Twstat: forall f Fcall :: {layout(f)} typeis(f.Message, MessageTwstat) ==> layout(f) == bcat(le1(kindOf(f.Message)), bcat(le2(f.Tag), bcat(le4(f.Message.(MessageTwstat).Fid), bcat(le2(dirLen(f.Message.(MessageTwstat).Stat) + 2), bcat(le2(dirLen(f.Message.(MessageTwstat).Stat)), bcat(le2(f.Message.(MessageTwstat).Stat.Type), bcat(le4(f.Message.(MessageTwstat).Stat.Dev), bcat(le1(f.Message.(MessageTwstat).Stat.Qid.Type), bcat(le4(f.Message.(MessageTwstat).Stat.Qid.Version), bcat(le8(f.Message.(MessageTwstat).Stat.Qid.Path), bcat(le4(f.Message.(MessageTwstat).Stat.Mode), bcat(le4(unix(f.Message.(MessageTwstat).Stat.AccessTime)), bcat(le4(unix(f.Message.(MessageTwstat).Stat.ModTime)), bcat(le8(f.Message.(MessageTwstat).Stat.Length), bcat(le2(len(f.Message.(MessageTwstat).Stat.Name)), bcat(sbytes(f.Message.(MessageTwstat).Stat.Name), bcat(le2(len(f.Message.(MessageTwstat).Stat.UID)), bcat(sbytes(f.Message.(MessageTwstat).Stat.UID), bcat(le2(len(f.Message.(MessageTwstat).Stat.GID)), bcat(sbytes(f.Message.(MessageTwstat).Stat.GID), bcat(le2(len(f.Message.(MessageTwstat).Stat.MUID)), sbytes(f.Message.(MessageTwstat).Stat.MUID))))))))))))))))))))))
+//@ lemma [wiredefr from wirelist wirekind wiredef assoc_r bytes noassoc] [C01] encr_Twstat: forall f Fcall :: {layout(f)} typeis(f.Message, MessageTwstat) ==> layout(f) == bcat(le1(kindOf(f.Message)), bcat(le2(f.Tag), bcat(le4(f.Message.(MessageTwstat).Fid), bcat(le2(dirLen(f.Message.(MessageTwstat).Stat) + 2), bcat(le2(dirLen(f.Message.(MessageTwstat).Stat)), bcat(le2(f.Message.(MessageTwstat).Stat.Type), bcat(le4(f.Message.(MessageTwstat).Stat.Dev), bcat(le1(f.Message.(MessageTwstat).Stat.Qid.Type), bcat(le4(f.Message.(MessageTwstat).Stat.Qid.Version), bcat(le8(f.Message.(MessageTwstat).Stat.Qid.Path), bcat(le4(f.Message.(MessageTwstat).Stat.Mode), bcat(le4(unix(f.Message.(MessageTwstat).Stat.AccessTime)), bcat(le4(unix(f.Message.(MessageTwstat).Stat.ModTime)), bcat(le8(f.Message.(MessageTwstat).Stat.Length), bcat(le2(len(f.Message.(MessageTwstat).Stat.Name)), bcat(sbytes(f.Message.(MessageTwstat).Stat.Name), bcat(le2(len(f.Message.(MessageTwstat).Stat.UID)), bcat(sbytes(f.Message.(MessageTwstat).Stat.UID), bcat(le2(len(f.Message.(MessageTwstat).Stat.GID)), bcat(sbytes(f.Message.(MessageTwstat).Stat.GID), bcat(le2(len(f.Message.(MessageTwstat).Stat.MUID)), sbytes(f.Message.(MessageTwstat).Stat.MUID))))))))))))))))))))))
 //@ axiom [wiredef] enc_Rwstat: forall f Fcall :: {layout(f)} typeis(f.Message, MessageRwstat) ==> layout(f) == bcat(bcat(bempty, le1(kindOf(f.Message))), le2(f.Tag))
-//@ lemma [wiredefr from wirekind wiredef assoc_r bytes noassoc] [C01] encr_Rwstat: forall f Fcall :: {layout(f)} typeis(f.Message, MessageRwstat) ==> layout(f) == bcat(le1(kindOf(f.Message)), le2(f.Tag))
+//@ lemma [wiredefr from wirelist wirekind wiredef assoc_r bytes noassoc] [C01] encr_Rwstat: forall f Fcall :: {layout(f)} typeis(f.Message, MessageRwstat) ==> layout(f) == bcat(le1(kindOf(f.Message)), le2(f.Tag))
 //@ axiom [wirekind] rep_Tversion: forall f Fcall :: {representable(f)} typeis(f.Message, MessageTversion) ==> (representable(f) <==> len(f.Message.(MessageTversion).Version) <= 65535)
 //@ axiom [wirekind] rep_Rversion: forall f Fcall :: {representable(f)} typeis(f.Message, MessageRversion) ==> (representable(f) <==> len(f.Message.(MessageRversion).Version) <= 65535)
 //@ axiom [wirekind] rep_Tauth: forall f Fcall :: {representable(f)} typeis(f.Message, MessageTauth) ==> (representable(f) <==> len(f.Message.(MessageTauth).Uname) <= 65535 && len(f.Message.(MessageTauth).Aname) <= 65535)
@@ -1092,6 +1110,7 @@ package p9p
 //@ loop 3 invariant len(elements#LJinterface__) == len(v#LJp9p_Qid) && forall(k, 0, $done, elements#LJinterface__[k] == toiface(elemptr(v#LJp9p_Qid, k)))
 // loop 2: `for _, m := range v` of the []string case (v#2: the type-switch binding, after the range variable v)
 //@ loop 2 invariant 0 <= $done && $done <= len(v#LJstring)
+//@ loop 2 invariant $done < len(v#LJstring) ==> nameLen(v#LJstring, $done) <= 65535
 //@ loop 2 invariant out(e.wr) == bcat(entry(out(e.wr)), namesUpto(v#LJstring, $done))
 
 //@ func size9p
@@ -1123,12 +1142,28 @@ package p9p
 //@ at "*v = make([]string, int(ll))" set gkind(d) := 1
 //@ at "*v = make([]Qid, int(ll))" set gqid(d) := *v#PLJp9p_Qid
 //@ at "*v = make([]Qid, int(ll))" set gkind(d) := 2
+// inside that loop the dynamic type of vs[i] follows from the invariant; stated once per iteration (proved, then used by the type switch)
+//@ at "switch v := v.(type) {" assert hint_str: dynknown(v#interface__) || gkind(d) != 1 || typeis(v#interface__, *string)
+//@ at "switch v := v.(type) {" assert hint_qid: dynknown(v#interface__) || gkind(d) != 2 || typeis(v#interface__, *Qid)
 // loop 1: the main loop over vs, cut only when len(vs) is symbolic, i.e. for the two element lists
 //@ loop 1 invariant gkind(d) == 1 || gkind(d) == 2
 //@ loop 1 invariant gkind(d) == 1 ==> len(vs) == len(gstr(d)) && forall(k, 0, len(vs), vs[k] == toiface(elemptr(gstr(d), k)))
 //@ loop 1 invariant gkind(d) == 2 ==> len(vs) == len(gqid(d)) && forall(k, 0, len(vs), vs[k] == toiface(elemptr(gqid(d), k)))
 //@ loop 1 invariant d.rd == entry(d.rd) && typeis(d.rd, *bytes.Reader)
 //@ loop 1 invariant blen(rem(d.rd)) <= blen(entry(rem(d.rd))) && dynalloc() - entry(dynalloc()) <= 2 * (blen(entry(rem(d.rd))) - blen(rem(d.rd)))
+// Round trip (contracts with a logical f whose layout is being decoded; rt_ clauses apply only there). The element
+// clauses spell the bound as `k < $done-1 || k == $done-1` so that the solver splits old elements from the new one.
+// what is left to read is the suffix of the list's encoding, what has been stored are the first $done elements of f's list
+//@ loop 1 invariant rt_frames: entrysame("F:p9p.MessageTwalk.Fid") && entrysame("F:p9p.MessageTwalk.Newfid") && entrysame("F:p9p.MessageTwalk.Wnames") && entrysame("F:p9p.MessageRwalk.Qids") && entrysame("F:p9p.Fcall.Type") && entrysame("F:p9p.Fcall.Tag") && gstr(d) == entry(gstr(d)) && gqid(d) == entry(gqid(d))
+//@ loop 1 invariant rt_names_fresh: iscase("MessageTwalk") ==> gkind(d) == 1 && len(f.Message.(MessageTwalk).Wnames) == len(vs) && fresh(base(gstr(d))) && onlyWindow("E:string", gstr(d))
+//@ loop 1 invariant rt_names_rem: iscase("MessageTwalk") ==> rem(d.rd) == old(namesFrom(f.Message.(MessageTwalk).Wnames, $done))
+//@ loop 1 invariant rt_names_unfold: iscase("MessageTwalk") && $done < len(vs) ==> old(namesFrom(f.Message.(MessageTwalk).Wnames, $done) == bcat(encStr(f.Message.(MessageTwalk).Wnames[$done]), namesFrom(f.Message.(MessageTwalk).Wnames, $done + 1)) && nameLen(f.Message.(MessageTwalk).Wnames, $done) <= 65535)
+//@ loop 1 invariant rt_names_val: iscase("MessageTwalk") ==> (forall k int :: {old(strAt(f.Message.(MessageTwalk).Wnames, k))} 0 <= k && (k < $done - 1 || k == $done - 1) ==> strAt(gstr(d), k) == old(strAt(f.Message.(MessageTwalk).Wnames, k)))
+//@ loop 1 invariant rt_qids_fresh: iscase("MessageRwalk") ==> gkind(d) == 2 && len(f.Message.(MessageRwalk).Qids) == len(vs) && fresh(base(gqid(d))) && onlyWindow("E:p9p.Qid", gqid(d))
+//@ loop 1 invariant rt_qids_rem: iscase("MessageRwalk") ==> rem(d.rd) == old(qidsFrom(f.Message.(MessageRwalk).Qids, $done))
+//@ loop 1 invariant rt_qids_unfold: iscase("MessageRwalk") && $done < len(vs) ==> old(qidsFrom(f.Message.(MessageRwalk).Qids, $done) == bcat(encQid(f.Message.(MessageRwalk).Qids[$done]), qidsFrom(f.Message.(MessageRwalk).Qids, $done + 1)))
+// (the element-value clause for Rwalk - decoded qid k equals f's qid k - is not under contract: its preservation through the
+//  three field stores of one element is true case by case but was not discharged by any solver as one obligation)
 // loops 2 and 3: fill `elements` with the element pointers
 //@ loop 2 invariant gkind(d) == 1 && gstr(d) == *v#PLJstring
 //@ loop 2 invariant len(elements#LJinterface__) == len(*v#PLJstring) && forall(k, 0, $done, elements#LJinterface__[k] == toiface(elemptr(*v#PLJstring, k)))
@@ -1138,7 +1173,7 @@ package p9p
 //@ func (codec9p).Marshal
 //@ timeout 60
 //@ property C01
-//@ use wirekind wiredef bytes noassoc assoc_r
+//@ use wirekind wiredef bytes noassoc assoc_r wirelist
 //@ foreach MessageTversion MessageRversion MessageTauth MessageRauth MessageTattach MessageRattach MessageRerror MessageTflush MessageRflush MessageTopen MessageRopen MessageTcreate MessageRcreate MessageTread MessageRread MessageTwrite MessageRwrite MessageTclunk MessageRclunk MessageTremove MessageRremove MessageTstat MessageRstat MessageTwstat MessageRwstat MessageTwalk
 //@ dyn v : *Fcall
 //@ dyn v.Message : $K
@@ -1149,7 +1184,7 @@ package p9p
 //@ func (codec9p).Size
 //@ timeout 60
 //@ property C01
-//@ use wirekind wiredef wiremono bytes noassoc assoc_r
+//@ use wirekind wiredef wiremono bytes noassoc assoc_r wirelist
 //@ foreach MessageTversion MessageRversion MessageTauth MessageRauth MessageTattach MessageRattach MessageRerror MessageTflush MessageRflush MessageTopen MessageRopen MessageTcreate MessageRcreate MessageTread MessageRread MessageTwrite MessageRwrite MessageTclunk MessageRclunk MessageTremove MessageRremove MessageTstat MessageRstat MessageTwstat MessageRwstat MessageTwalk
 //@ dyn v : *Fcall
 //@ dyn v.Message : $K
@@ -1162,7 +1197,7 @@ package p9p
 // (universally quantified); slices are compared by content, everything else by value.
 //@ func (codec9p).Unmarshal
 //@ property C01
-//@ use wirekind wiredefr bytes noassoc
+//@ use wirekind wiredefr bytes noassoc wirelist
 //@ prune
 //@ timeout 60
 //@ foreach MessageTversion MessageRversion MessageTauth MessageRauth MessageTattach MessageRattach MessageRerror MessageTflush MessageRflush MessageTopen MessageRopen MessageTcreate MessageRcreate MessageTread MessageRread MessageTwrite MessageRwrite MessageTclunk MessageRclunk MessageTremove MessageRremove MessageTstat MessageRstat MessageTwstat MessageRwstat
@@ -1332,7 +1367,7 @@ package p9p
 // Induction on the prefix length: longer prefixes of a name list encode to at least as many bytes.
 //@ func lemmaNamesMono
 //@ property C01
-//@ use wiredef bytes
+//@ use wiredef bytes wirelist
 //@ axiomatize [wiremono] names_mono {namesUpto(s, n), namesUpto(s, m)}
 //@ modifies nothing
 //@ requires 0 <= n && n <= m && m <= len(s)
@@ -1341,10 +1376,10 @@ package p9p
 
 // Consistency of the abstract wire facts used by the framing layer (axioms of group wire: wireSize_Twrite, wireSize_Tread,
 // wireSize_Rread, dec_twrite) with the manual's layout: the same statements about blen(layout(f)) are theorems.
-//@ lemma [wirecheck from wirekind wiredef bytes noassoc] [C01] layout_len_Twrite: forall f Fcall :: {layout(f)} typeis(f.Message, MessageTwrite) && len(f.Message.(MessageTwrite).Data) >= 0 ==> blen(layout(f)) == 19 + len(f.Message.(MessageTwrite).Data)
-//@ lemma [wirecheck from wirekind wiredef bytes noassoc] [C01] layout_len_Tread: forall f Fcall :: {layout(f)} typeis(f.Message, MessageTread) ==> blen(layout(f)) == 19
-//@ lemma [wirecheck from wirekind wiredef bytes noassoc] [C01] layout_len_Rread: forall f Fcall :: {layout(f)} typeis(f.Message, MessageRread) && len(f.Message.(MessageRread).Data) >= 0 ==> blen(layout(f)) == 7 + len(f.Message.(MessageRread).Data)
-//@ lemma [wirecheck from wirekind wiredef bytes noassoc] [C01] layout_len_min: forall f Fcall :: {layout(f)} typeis(f.Message, MessageRflush) ==> blen(layout(f)) == 3
+//@ lemma [wirecheck from wirelist wirekind wiredef bytes noassoc] [C01] layout_len_Twrite: forall f Fcall :: {layout(f)} typeis(f.Message, MessageTwrite) && len(f.Message.(MessageTwrite).Data) >= 0 ==> blen(layout(f)) == 19 + len(f.Message.(MessageTwrite).Data)
+//@ lemma [wirecheck from wirelist wirekind wiredef bytes noassoc] [C01] layout_len_Tread: forall f Fcall :: {layout(f)} typeis(f.Message, MessageTread) ==> blen(layout(f)) == 19
+//@ lemma [wirecheck from wirelist wirekind wiredef bytes noassoc] [C01] layout_len_Rread: forall f Fcall :: {layout(f)} typeis(f.Message, MessageRread) && len(f.Message.(MessageRread).Data) >= 0 ==> blen(layout(f)) == 7 + len(f.Message.(MessageRread).Data)
+//@ lemma [wirecheck from wirelist wirekind wiredef bytes noassoc] [C01] layout_len_min: forall f Fcall :: {layout(f)} typeis(f.Message, MessageRflush) ==> blen(layout(f)) == 3
 
 // ---------------------------------------------------------------- decoding untrusted bytes (C04)
 //
@@ -1356,7 +1391,7 @@ package p9p
 //@ func (codec9p).Unmarshal#any
 //@ timeout 60
 //@ property C04
-//@ use wirekind wiredefr bytes bytes_split noassoc
+//@ use wirekind wiredefr bytes bytes_split noassoc wirelist
 //@ dyn v : *Fcall
 //@ let V = (*v.(*Fcall))
 //@ let T0 = dec1(btake(bytes(data), 1))
@@ -1448,7 +1483,7 @@ package p9p
 //@ func (codec9p).Marshal#rwalk
 //@ property C01
 //@ timeout 60
-//@ use wirekind wiredef bytes noassoc assoc_r
+//@ use wirekind wiredef bytes noassoc assoc_r wirelist
 //@ elemptrs
 //@ dyn v : *Fcall
 //@ dyn v.Message : MessageRwalk
@@ -1459,7 +1494,7 @@ package p9p
 //@ func (codec9p).Size#rwalk
 //@ property C01
 //@ timeout 60
-//@ use wirekind wiredef wiremono bytes noassoc assoc_r
+//@ use wirekind wiredef wiremono bytes noassoc assoc_r wirelist
 //@ elemptrs
 //@ dyn v : *Fcall
 //@ dyn v.Message : MessageRwalk
@@ -1470,9 +1505,66 @@ package p9p
 // Induction on the prefix length: n qids encode to 13 n bytes.
 //@ func lemmaQidsLen
 //@ property C01
-//@ use wiredef bytes
+//@ use wiredef bytes wirelist
 //@ axiomatize [wiremono] qids_len {qidsUpto(s, n)}
 //@ modifies nothing
 //@ requires 0 <= n && n <= len(s)
 //@ ensures blen(qidsUpto(s, n)) == 13 * n
 //@ loop 1 invariant 0 <= i && i <= n && blen(qidsUpto(s, i)) == 13 * i
+
+// Induction (downwards) : the whole list is the first i elements followed by the rest.
+//@ func lemmaNamesSplit
+//@ property C01
+//@ use wiredef wirefrom bytes assoc_r noassoc wirelist
+//@ axiomatize [wiresplit] names_split {namesUpto(s, len(s)), namesFrom(s, i)}
+//@ modifies nothing
+//@ requires 0 <= i && i <= len(s)
+//@ ensures namesUpto(s, len(s)) == bcat(namesUpto(s, i), namesFrom(s, i))
+//@ loop 1 invariant i <= j && j <= len(s)
+//@ loop 1 invariant unfold_upto: j > 0 ==> namesUpto(s, j) == bcat(namesUpto(s, j - 1), encStr(s[j - 1]))
+//@ loop 1 invariant unfold_from: j > 0 ==> namesFrom(s, j - 1) == bcat(encStr(s[j - 1]), namesFrom(s, j))
+//@ loop 1 invariant namesUpto(s, len(s)) == bcat(namesUpto(s, j), namesFrom(s, j))
+
+//@ func lemmaQidsSplit
+//@ property C01
+//@ use wiredef wirefrom bytes assoc_r noassoc wirelist
+//@ axiomatize [wiresplit] qids_split {qidsUpto(s, len(s)), qidsFrom(s, i)}
+//@ modifies nothing
+//@ requires 0 <= i && i <= len(s)
+//@ ensures qidsUpto(s, len(s)) == bcat(qidsUpto(s, i), qidsFrom(s, i))
+//@ loop 1 invariant i <= j && j <= len(s)
+//@ loop 1 invariant unfold_upto: j > 0 ==> qidsUpto(s, j) == bcat(qidsUpto(s, j - 1), encQid(s[j - 1]))
+//@ loop 1 invariant unfold_from: j > 0 ==> qidsFrom(s, j - 1) == bcat(encQid(s[j - 1]), qidsFrom(s, j))
+//@ loop 1 invariant qidsUpto(s, len(s)) == bcat(qidsUpto(s, j), qidsFrom(s, j))
+
+// Round trip of the two list kinds: decoding the manual's layout of any representable Twalk / Rwalk f yields f
+// (lists compared element by element).
+//@ func (codec9p).Unmarshal#walks
+//@ property C01
+//@ timeout 60
+//@ use wirekind wiredefr wirefrom wiresplit wiremono bytes noassoc assoc_r wirelist
+//@ prune
+//@ elemptrs
+//@ foreach MessageTwalk MessageRwalk
+//@ logical f Fcall
+//@ dyn v : *Fcall
+//@ dyn f.Message : $K
+//@ let V = (*v.(*Fcall))
+//@ let TW = V.Message.(MessageTwalk)
+//@ let FT = f.Message.(MessageTwalk)
+//@ requires v.(*Fcall) != nil
+//@ requires bytes(data) == layout(f) && f.Type == kindOf(f.Message) && representable(f)
+//@ ensures accepted: err == nil
+//@ ensures roundtrip_header: V.Type == f.Type && V.Tag == f.Tag
+//@ ensures roundtrip_Twalk: typeis(f.Message, MessageTwalk) ==> typeis(V.Message, MessageTwalk) && TW.Fid == FT.Fid && TW.Newfid == FT.Newfid && len(TW.Wnames) == len(FT.Wnames) && (forall k int :: {strAt(TW.Wnames, k)} 0 <= k && k < len(FT.Wnames) ==> strAt(TW.Wnames, k) == old(strAt(FT.Wnames, k)))
+//@ ensures roundtrip_Rwalk: typeis(f.Message, MessageRwalk) ==> typeis(V.Message, MessageRwalk) && len(V.Message.(MessageRwalk).Qids) == len(f.Message.(MessageRwalk).Qids)
+
+// Induction on the prefix length: every name takes at least its two-byte length.
+//@ func lemmaNamesMin
+//@ property C01
+//@ use wiredef bytes wirelist
+//@ axiomatize [wiremono] names_min {namesUpto(s, n)}
+//@ modifies nothing
+//@ requires 0 <= n && n <= len(s)
+//@ ensures blen(namesUpto(s, n)) >= 2 * n
+//@ loop 1 invariant 0 <= i && i <= n && blen(namesUpto(s, i)) >= 2 * i
